@@ -152,6 +152,26 @@ Definition diagnose_file (tr : range -> lsp_range) (cfg : config) (f : file) (ks
        | None => Some (get_diagnostics (check_file tr cfg f ks))
        end.
 
+(** ---- how a file becomes a meta file ----
+    compilation/analyzer/decl/docs.rs [analyze_doc_tag_meta] with LuaModuleIndex::[set_meta] (marks the file's
+    [ModuleInfo] if the file has one), [add_module_by_module_path] (removes the entry and inserts a fresh one whose
+    [is_meta] is [reinsert_is_meta]) and [is_meta_file].  The four booleans / names are read off the source. *)
+
+(** the file's [---@meta] tag: none, bare, or with a name *)
+Inductive meta_tag := NoMetaTag | BareMeta | NamedMeta (n : string).
+
+(** [is_meta_file] after the declaration analysis; [registered] = the file has an entry in [file_module_map]
+    (it lies under a workspace root) *)
+Definition meta_flag_of_tag (registered : bool) (tag : meta_tag) : bool :=
+  match tag with
+  | NoMetaTag => false
+  | BareMeta => registered && meta_set_first
+  | NamedMeta n =>
+      if existsb (String.eqb n) meta_special_names
+      then registered && meta_set_first                      (* only the module visibility changes *)
+      else registered && (reinsert_is_meta || meta_set_after_rename)   (* re-registered under the module path [n] *)
+  end.
+
 (** the [CODES] of a checker of the source, by type name *)
 Definition codes_of_checker (nm : string) : list code :=
   match find (fun k => String.eqb (ck_name k) nm) checkers with
